@@ -387,6 +387,32 @@ impl ObjState for [Link] {
         validate_slice_real_shift(&mut errors, &self[1..], "Link", 0);
         early_err!(errors, "Links");
 
+        // Every link reference must point inside the network before it is used as an index below
+        // (and, for `link_idxs_lockout`, later by the dispatcher)
+        for link in self.iter() {
+            for (var, name) in [
+                (link.idx_flip, "flip"),
+                (link.idx_next, "next"),
+                (link.idx_next_alt, "next alt"),
+                (link.idx_prev, "prev"),
+                (link.idx_prev_alt, "prev alt"),
+            ]
+            .into_iter()
+            .chain(link.link_idxs_lockout.iter().map(|idx| (*idx, "lockout")))
+            {
+                if var.idx() >= self.len() {
+                    errors.push(anyhow!(
+                        "Link {} idx {} = {} is outside the network of {} links!",
+                        link.idx_curr,
+                        name,
+                        var,
+                        self.len()
+                    ));
+                }
+            }
+        }
+        early_err!(errors, "Links");
+
         for (idx, link) in self.iter().enumerate().skip(1) {
             // Validate flip and curr
             if link.idx_curr.idx() != idx {
